@@ -243,12 +243,12 @@ def both_offset_free(c, u1, u2):
 @contract
 class Convert(Contract):
     """conversions.convert: the dimension gate, the requested unit, Decimal preservation and
-    (for offset-free units) the value relation of C04.  Body: see contracts/c_conversions.py
-    (the planner behind it is only bounded: this contract is listed in the trusted base of
-    everything that converts)."""
+    (for offset-free units) the value relation of C04.  VERIFIED against the real body relative to the
+    trusted contract of the planner (contracts/c_conversions.PlanConversion): the two loops are proved to
+    compute APL(plan, unprefixed magnitude) by the loop specs ConvertOuter / ConvertInner."""
     qual = "measured.conversions.convert"
-    props = ("C03", "C04", "C05", "C06", "C07")
-    trusted = True
+    props = ("C03", "C04", "C05", "C06", "C07", "C10")
+    trusted = False
     inv = ("I_D", "I_P", "I_U")
     modifies = _UnitBin.modifies + ("new:Quantity",)
     ret = T_QTY
@@ -266,6 +266,9 @@ class Convert(Contract):
         yield "fresh-quantity", z3.And(c.alive(r), z3.Not(o.alive(r)))
         yield "asked-unit", c.f(r, "unit") == a.other_unit.ref
         yield "decimal-preserved", kind_rule(mkind(c, r), mkind(o, a.quantity))
+        from .c_conversions import APL, PLAN
+        su = o.f(a.quantity, "unit")
+        yield "applies-plan", mval(c, r) == APL(PLAN(su, a.other_unit.ref), mval(o, a.quantity) * pval_z(o, o.fz("Unit", su, "prefix")))
         yield "value", z3.Implies(both_offset_free(o, o.f(a.quantity, "unit"), a.other_unit.ref),
                                   mval(c, r) * size(o, a.other_unit.ref) == qval(o, a.quantity))
         for t in ("Unit._known", "Prefix._known", "Dimension._known"):
@@ -315,6 +318,7 @@ class QUnprefixed(Contract):
         yield "unit-dimension", pointwise(c, VObj("Dimension", c.f(ru, "dimension")), lambda i: dexp(o, VObj("Dimension", o.f(su, "dimension")), i))
         yield "unit-dimension-identical", c.f(ru, "dimension") == o.f(su, "dimension")
         yield "magnitude", mval(c, r) == mval(o, a.self) * pval_z(o, o.f(su, "prefix"))
+        yield "decimal-preserved", kind_rule(mkind(c, r), mkind(o, a.self))
         yield "value-preserved", qval(c, r) == qval(o, a.self)
         for t in ("Unit._known", "Prefix._known", "Dimension._known"):
             yield "table-grows-" + t, same_table_grows(c, t)
